@@ -1,3 +1,4 @@
+import NgoVerif.Proofs.C10multi
 import NgoVerif.Generated.Tables
 import NgoVerif.Meta.Algebra
 import NgoVerif.Meta.Meta2
@@ -32,5 +33,12 @@ own declaration lists, under the parameter names the class declares, and replace
 theorem C15_wiring :
     Tables.API_ARGS.lookup "inline" = some (["input_", "input_predicates", "output_predicates"], "input_", "input_") ∧
     Tables.CTOR_PARAMS.lookup "inline" = some ["prg", "input_predicates", "output_predicates"] := by decide
+
+open Proofs.C10multi in
+/-- **inlining a helper into positive body literals**: with the helper rule `s(V̄) :- B.` in the program, the rules `headᵢ :- restᵢ, s(σᵢ V̄).` (`after`) and the rules `headᵢ :- restᵢ ∪ σᵢ B.` (`beforeWith`) give the SAME stable models - all places of use at once, typed programs, standard head semantics, any parameters with persistent aggregates (`Proofs/C10multi.fold_all_existing`). Removing the helper afterwards is `C09_removal_*`. The aggregate branch of `inline` (sum of sums) is not covered by this statement. -/
+theorem C15_inline_positive_body (P : Sem.Params) (hpers : Sem.AggPersistent P) (c : Canon) (ps : List Place) (hne : 0 < ps.length)
+    (hps : ∀ p ∈ ps, PlaceOk c p) (ctx : Prog) (hctx : CtxAvoids c ctx) (T : Sem.Interp) :
+    Sem.Stable (Sem.stdParams P) (after c ps ctx) T ↔ Sem.Stable (Sem.stdParams P) (beforeWith c ps ctx) T :=
+  fold_all_existing P hpers c ps hne hps ctx hctx T
 
 end NgoVerif
